@@ -17,7 +17,8 @@ THOROUGH_BUDGET_S = 900
 CHUNK = 50
 RULE = ("per run: listen_host (loopback v4/v6, all interfaces, IPv4/IPv6 wildcard, explicit address) x 1-3 real listeners "
         "(regular, socks5, transparent, reverse http/tcp/udp/dns, upstream, dns; TCP, UDP and dual-transport) started by the "
-        "real Proxyserver on SimNet, optionally re-configured mid-run; a history of 3-8 requests whose destination is a "
+        "real Proxyserver on SimNet, optionally re-configured mid-run, incl. 2-3 listeners (TCP or UDP) bound to different "
+        "addresses but ONE port number through per-mode '@addr:port' specs in any order; a history of 3-8 requests whose destination is a "
         "spelling of an own listener (localhost any case / trailing dot, 127.0.0.0/8, ::1 and re-spellings, IPv4-mapped "
         "loopback, 0.0.0.0, ::, the explicit listen address and re-spellings) or a control (other port, other transport, "
         "foreign host), reached via absolute-form, CONNECT, SOCKS5 (name/IPv4/IPv6), transparent original destination, "
@@ -37,7 +38,7 @@ ASSUMPTIONS = ["a listener on all interfaces (listen_host '') owns an IPv4 and a
                "(False e.g. for 127.0.0.2 against a socket bound to 127.0.0.1)"]
 EXPECTED_PROBES = ["loop_refused", "control_served", "via_absolute", "via_connect", "via_socks5", "via_original_dst",
                    "via_host_header", "via_rewrite", "via_mode_target", "via_udp", "cross_transport_control",
-                   "reconfigured", "no_verdict"]
+                   "reconfigured", "no_verdict", "shared_port_loop_refused", "shared_port_udp_loop_refused"]
 
 
 def B(s):
@@ -244,6 +245,9 @@ V6LOOP = ["::1", "::1", "0:0:0:0:0:0:0:1", "::0001", "0::1"]
 MAPPEDLOOP = ["::ffff:127.0.0.1", "::ffff:7f00:1", "::ffff:127.0.0.2", "0:0:0:0:0:ffff:127.0.0.1"]
 WILD = ["0.0.0.0", "::", "0:0:0:0:0:0:0:0"]
 CONTROLS = ["o.test", "10.0.0.2", "192.168.1.1", "2001:db8::9", "localhost.test", "notlocalhost"]
+# addresses for several listeners that share one port number (canonical spellings, as getsockname() prints them)
+SHARED_V4 = ["127.0.0.1", "127.0.0.2", "127.0.0.3", "10.0.0.1", "192.168.7.7"]
+SHARED_V6 = ["::1", "fd00::5", "fd00::6"]
 
 
 def respell(h, r):
@@ -357,19 +361,11 @@ def generate(rng, tier):
         addrs = pool[:n]
         kinds = [r.choice(["regular", "regular", "socks5", "transparent", "reverse:http://o.test:80",
                            "upstream:http://p.test:3128"]) for _ in range(n)]
-        modes = []
-        for a, kd in zip(addrs, kinds):
-            if a == listen_host and r.random() < 0.5 and kd not in [m.split("@")[0] for m in modes]:
-                spec = f"{kd}@{listen_port}" if r.random() < 0.5 else kd  # address taken from the listen_host option
-                if spec == kd and any(m == kd for m in modes):
-                    spec = f"{kd}@{listen_port}"
-            else:
-                spec = f"{kd}@{a}:{listen_port}"
-            if spec in modes:
-                spec = f"{kd}@{a}:{listen_port}"
-            if spec in modes:
-                continue
-            modes.append(spec)
+        modes = [f"{kd}@{a}:{listen_port}" for a, kd in zip(addrs, kinds)]
+        if listen_host not in ("", "0.0.0.0", "::") and listen_host not in addrs and r.random() < 0.4:
+            # one more listener on the same port whose address comes from the listen_host option
+            kd = r.choice(["regular", "socks5"])
+            modes.insert(r.randrange(len(modes) + 1), kd if r.random() < 0.5 else f"{kd}@{listen_port}")
         laddrs = [mode_listener(m, listen_host, listen_port)[0] for m in modes]
         for _ in range(nops):
             mode = r.choice(modes)
@@ -561,6 +557,10 @@ def execute(sc):
                 state["loop_stage"] = True
                 if err and err.startswith(UNKNOWN):
                     probe("loop_refused")
+                    if sc.get("family", "").endswith("shared_port"):
+                        probe("shared_port_loop_refused")
+                    elif sc.get("family", "").endswith("shared_port_udp"):
+                        probe("shared_port_udp_loop_refused")
                 elif err:
                     pass  # refused for another reason: no connect follows
                 # (no error at all -> the planner reports the connect)
